@@ -137,6 +137,28 @@ class V1World:
         return {"version": 1, "targets": list(targets), "elements": els}
 
 
+# spellings of a hex string that bytes.fromhex (hence the loader) accepts for the same bytes
+HEX_SPELLINGS = {
+    "upper": str.upper,
+    "spaced": lambda h: " ".join(h[i:i + 2] for i in range(0, len(h), 2)),
+    "lead2": lambda h: "  " + h,
+    "trail": lambda h: h + " ",
+    "mixed": lambda h: "\t" + h[:2].upper() + " " + h[2:4] + "\n" + h[4:] + "\r\n",
+}
+
+# spellings of a base64 string that the standard (non-validating) decoder accepts for the same bytes
+B64_SPELLINGS = {
+    "lines64": lambda b: "\n".join(b[i:i + 64] for i in range(0, len(b), 64)),
+    "lead-trail": lambda b: "  " + b + " \n",
+    "crlf76": lambda b: "\r\n".join(b[i:i + 76] for i in range(0, len(b), 76)) + "\r\n",
+}
+
+
+def k1_hybrid(pub65):
+    """hybrid SEC1 encoding (06 / 07 by the parity of y) of an uncompressed secp256k1 / P-256 point"""
+    return bytes([6 + (pub65[-1] & 1)]) + pub65[1:]
+
+
 def flip(b, i, bit):
     b = bytearray(b)
     b[i] ^= 1 << bit
@@ -222,6 +244,8 @@ class V2World:
         if fmt == "compressed":
             return pub.public_bytes(Encoding.X962, PublicFormat.CompressedPoint)
         u = pub.public_bytes(Encoding.X962, PublicFormat.UncompressedPoint)
+        if fmt == "hybrid":
+            return k1_hybrid(u)
         return u[1:] if fmt == "raw" else u
 
     def cert(self, subject, issuer, nb, na, scurve="p256", icurve="p256", hash_name="sha256",
@@ -313,7 +337,7 @@ class V2World:
     X509_NAMES = ("platform_ca", "inter_ca", "quoting_enclave")
 
     def chain(self, depth=2, nest="wide-top", auth=None, curves=None, hashes_=None, custom=None,
-              root_curve="p256", root_key="root"):
+              root_curve="p256", root_key="root", leaf_window=None, key_fmt="uncompressed"):
         """root -> (depth-1) CA certificates -> leaf certificate -> attestation key -> quote.
 
         -> (doc, root_pem, meta); meta["x509"] = [(element name, not_before, not_after)] top first.
@@ -331,11 +355,14 @@ class V2World:
         for i, n in enumerate(names):
             span = (40 - 10 * i) if nest == "wide-top" else (10 + 10 * i)
             nb, na = T0 - span * day, T0 + span * day
+            if leaf_window is not None and i == len(names) - 1:
+                nb, na = leaf_window
             der = self.cert(n, issuer, nb, na, scurve=curves[i], icurve=icurve, hash_name=hashes_[i])
             els.append(self.x509_element(n, V2_ROOT if i == 0 else names[i - 1], der))
             meta.append((n, nb, na))
             issuer, icurve = n, curves[i]
-        att = self.att_element("attestation", names[-1], names[-1], auth=auth, signer_curve=curves[-1])
+        att = self.att_element("attestation", names[-1], names[-1], auth=auth, signer_curve=curves[-1],
+                               key_fmt=key_fmt)
         quote = self.quote_element("quote", "attestation", "attkey", custom=custom)
         doc = {"version": 2, "targets": ["quote"],
                "elements": [quote, att] + list(reversed(els))}
